@@ -7,12 +7,13 @@ import re
 from harness import core, xdoc
 
 GEN = ['gen_tables', 'gen_regex', 'gen_config', 'gen_escapes']
-THEOREMS = ['C14_plain_line_passes_through', 'C14_plain_line_parses', 'C14_plain_hypotheses_hold', 'C14_bounded_prose', 'C14_block_starts_need_their_marker', 'C14_inert_predicate_is_not_vacuous']
+THEOREMS = ['C14_prose_paragraph_passes_through', 'C14_prose_paragraph_parses', 'C14_prose_hypotheses_hold', 'C14_plain_line_passes_through', 'C14_plain_line_parses', 'C14_plain_hypotheses_hold', 'C14_bounded_prose', 'C14_block_starts_need_their_marker', 'C14_inert_predicate_is_not_vacuous']
 TRUSTED = ['the inertness predicate (harness/props/c14.py:inert, written from the CommonMark 0.30 / GFM block-start and inline rules, conservative: '
            'when in doubt a paragraph is skipped) and its Coq twin Proofs/Prose.v:inert_text used by the kernel sweep',
            'the parser and HTML renderer models (tied by X-doc and X-html on the same paragraphs)',
            'vm_compute for the bounded sweep']
-ASSUMPTIONS = ['unbounded theorem (whole pipeline model): a line free of the 14 trigger characters \\ * _ [ ] ! ` ~ < newline $ & { | that begins with a non-marker character '
+ASSUMPTIONS = ['unbounded theorem for paragraphs of any number of trigger-free lines (C14_prose_paragraph_passes_through): first line plain, continuation lines plain and not beginning with = or a list-item marker character; the same class is run on the implementation (plain_paragraphs_of_several_lines)',
+               'unbounded theorem (whole pipeline model): a line free of the 14 trigger characters \\ * _ [ ] ! ` ~ < newline $ & { | that begins with a non-marker character '
                'and does not end in white space renders as <p>escaped text</p>, for every modelled token configuration; the random plain-line stream ties '
                'that class to the implementation',
                'PARTIAL for paragraphs in which trigger characters occur in inert positions: kernel-checked for every paragraph of up to 2 lines x up to 2 tokens (and single lines of 3 tokens) over a 16-token vocabulary that '
@@ -132,11 +133,13 @@ def worker(lines):
 
 
 def plain_worker(l):
+    """one plain line, or a list of plain lines (one paragraph)"""
     import mistletoe
     from mistletoe.html_renderer import HtmlRenderer
+    lines = [l] if isinstance(l, str) else l
     try:
         with HtmlRenderer() as r:
-            return r.render(mistletoe.Document([l + '\n']))
+            return r.render(mistletoe.Document([x + '\n' for x in lines]))
     except Exception as e:
         return 'EXC %s: %s' % (type(e).__name__, e)
 
@@ -193,6 +196,20 @@ def run(ctx, only=None):
         want = '<p>' + html.escape(l, quote=False) + '</p>\n'
         if got != want:
             ctx.failing.append({'interface': 'oracle(plain line)', 'input': {'lines': [l + '\n']}, 'what': 'a line without trigger characters is not rendered as its own text inside one <p>',
+                                'observed': got, 'expected': want, 'kf': None})
+    # ... and paragraphs of several such lines (C14_prose_paragraph_passes_through): continuation lines must not begin with '=' either
+    multi = []
+    cont = [l for l in plain if l[0] != '=']
+    while len(multi) < (2000 if ctx.quick() else 40000):
+        multi.append([rng.choice(plain)] + [rng.choice(cont) for _ in range(rng.randint(1, 5))])
+    with mp.Pool(core.NPROC) as pool:
+        mres = pool.map(plain_worker, multi, chunksize=200)
+    for ls, got in zip(multi, mres):
+        ctx.count('evaluations')
+        ctx.count('plain_paragraphs_of_several_lines')
+        want = '<p>' + html.escape('\n'.join(ls), quote=False) + '</p>\n'
+        if got != want:
+            ctx.failing.append({'interface': 'oracle(plain lines)', 'input': {'lines': [x + '\n' for x in ls]}, 'what': 'lines without trigger characters are not rendered as their own text inside one <p>',
                                 'observed': got, 'expected': want, 'kf': None})
     ctx.cov['vocabulary'] = len(VOCAB)
     ctx.cov['lines_per_paragraph'] = {str(n): sum(1 for p in kept if len(p) == n) for n in (1, 2, 3, 4)}
